@@ -116,6 +116,35 @@ def run(ctx):
         ctx.ob("R06.2", "prep_exec-ok-dominates-fork", fn.path == os_start.path and dominated_by_edges(fn, fm.fork_bb, ok_e), fn.loc(bb), "fork must be dominated by the success edge of prep_exec(..)? (NUL rejection precedes process creation)")
     ctx.floor("R06.1", "prep_exec call sites", len(pc), 1)
 
+    # format_env: whatever its de-duplication strategy, each emitted string is `key` + "=" + `value` of one input pair
+    fe = prog.one("popen::os::format_env")
+    joins = 0
+    for cp in [fe.path] + sorted(M.local_callees(prog, fe)):
+        cf = prog.fns.get(cp)
+        if cf is None:
+            continue
+        Tj = M.Terms(cf)
+        pushes = [(b2, t2) for b2, t2 in cf.calls() if M.callee_str(t2["f"]).startswith("std::ffi::OsString::push")]
+        if not pushes:
+            continue
+        joins += 1
+        order = []
+        for b2, t2 in sorted(pushes, key=lambda x: x[0]):
+            v = M.noref(M.strip(Tj.operand(t2["args"][1])))
+            order.append(v)
+        okj = len(order) == 2 and order[0][0] == "const" and order[0][1] == "=" and pushes[1][0] in cf.reachable(pushes[0][0]) and pushes[0][0] not in cf.reachable(pushes[1][0])
+        if okj:
+            # receiver is a clone of the key (.0 of the pair), the appended value is .1 of the same pair
+            recv = M.noref(Tj.operand(pushes[0][1]["args"][0]))
+            val = order[1]
+            kroot = recv
+            while kroot[0] == "call" and kroot[2]:
+                kroot = M.noref(kroot[2][0])
+            okj = (kroot[0] == "field" and kroot[2] == "0" and val[0] == "field" and val[2] == "1" and kroot[1] == val[1]) or \
+                  (kroot[0] == "param" and val[0] == "param" and kroot[1] != val[1])
+        ctx.ob("R06.1", "format_env.key=value", okj, cf.loc(0), "each environment string is built as <key> \"=\" <value> from one (key, value) pair")
+    ctx.floor("R06.1", "format_env joining sites", joins, 1)
+
     # ---- R06.2 C strings only from the NUL-checking constructor -------------
     bad_ctors = ("from_vec_unchecked", "from_raw", "from_bytes_with_nul_unchecked", "from_vec_with_nul_unchecked", "from_ptr")
     for p, fn in sorted(prog.fns.items()):
